@@ -67,18 +67,24 @@ structure Inv (s : St) : Prop where
   done_nodup : (s.done ++ s.owner.batch).Nodup
   done_lt    : ∀ i ∈ s.done ++ s.owner.batch, i < s.ni
   items      : ∀ i, i < s.ni → IInv s i
-  owed       : s.queue ≠ [] → ∃ k, k < s.nw ∧ Resp s k
+  owed       : s.queue ≠ [] → (∃ k, k < s.nw ∧ Resp s k) ∨ (s.started = 0 ∧ (s.tnOwed = true ∨ s.owner = .tnPre))
   done_owed  : s.done ≠ [] → s.evOwed = true ∨ s.owner = .evPre
   handle_shut : s.handle = true ↔ s.shut = false
   freed_imp  : s.freed = true → s.shut = true ∧ s.started = 0 ∧ s.queue = [] ∧ s.done = [] ∧ s.owner = .idle ∧
                  s.evOwed = false ∧ s.tnOwed = false
   shut_ev    : s.shut = true → s.started = 0 → s.freed = false →
-                 s.evOwed = true ∨ s.owner = .evPre ∨ ∃ b, s.owner = .compl b
+                 s.evOwed = true ∨ s.owner = .evPre ∨ (∃ b, s.owner = .compl b) ∨
+                 (s.queue ≠ [] ∧ (s.tnOwed = true ∨ s.owner = .tnPre))
 
 /-- states reachable from a fresh pool by any interleaving of any actions -/
 inductive Reach (max : Nat) : St → Prop where
   | init : Reach max (St.init max)
   | step {s s' : St} {a : Act} : Reach max s → step s a = some s' → Reach max s'
+
+/-- t is reachable from s by any sequence of actions of any threads -/
+inductive ReachFrom (s : St) : St → Prop where
+  | refl : ReachFrom s s
+  | step {t t' : St} {a : Act} : ReachFrom s t → step t a = some t' → ReachFrom s t'
 
 /-- nothing internal to the library can happen any more (user submissions/put and the passage of
 time — idle-timeout expiry — are not counted): the situation in which every thread sleeps in its loop -/
